@@ -93,8 +93,41 @@ pub fn check_case2(c: &RCase, q: &QRCode, other: Option<&QRCode>) -> (Vec<(Strin
     let n = q.size;
     let s = n + 2 * c.margin;
     let (fg, bg, _) = COLOUR_PAIRS[c.colours];
+    // two layered configurations take the place of the plain one in two cases out of five:
+    //  1 = same colour below and above another colour (fg shape, green circle, fg shape): the top layer decides;
+    //  2 = "hollow": a green square below, the case's shape in the background colour on top (opaque backgrounds only):
+    //      the centre of a dark module shows the top layer, i.e. the background colour
+    let layered = match (c.v + 3 * c.margin + c.colours + c.shape) % 5 {
+        0 => 1,
+        1 if bg[3] == 255 => 2,
+        _ => 0,
+    };
+    let fg = if layered == 2 { bg } else { fg };
     let mk = || {
         let mut b = ImageBuilder::default();
+        if layered > 0 {
+            let (fg0, _, _) = COLOUR_PAIRS[c.colours];
+            b.margin(c.margin).background_color(bg);
+            if layered == 1 {
+                b.shape_color(SHAPES[c.shape], fg0).shape_color(SHAPES[if c.shape == 1 { 5 } else { 1 }], [10, 200, 10, 255]).shape_color(SHAPES[c.shape], fg0);
+            } else {
+                b.shape_color(SHAPES[0], [10, 200, 10, 255]).shape_color(SHAPES[c.shape], bg);
+            }
+            match c.fit {
+                Fit::Original => {}
+                Fit::Width(w) => {
+                    b.fit_width(w);
+                }
+                Fit::Height(h) => {
+                    b.fit_height(h);
+                }
+                Fit::Both(w, h) => {
+                    b.fit_width(w);
+                    b.fit_height(h);
+                }
+            }
+            return b;
+        }
         // colours go through every route in turn: module_color with [u8; 4] arrays, Vec<u8>, &[u8], and the layer's own
         // colour given with shape_color (no module_color call at all)
         b.margin(c.margin);
@@ -184,7 +217,8 @@ pub fn check_case2(c: &RCase, q: &QRCode, other: Option<&QRCode>) -> (Vec<(Strin
     let same = |a: [u8; 4], b: [u8; 4]| a == b || (a[3] == 0 && b[3] == 0);
     // against an expected colour with partial alpha: +-2 per channel (premultiplied storage)
     let close = |a: [u8; 4], e: [u8; 4]| same(a, e) || (e[3] > 0 && e[3] < 255 && (0..4).all(|i| (a[i] as i32 - e[i] as i32).abs() <= 2));
-    let exact_cells = c.shape == 0 && (w % s == 0);
+    // (layered configurations: where two layers of different colours meet, edge pixels blend; centres only)
+    let exact_cells = c.shape == 0 && (w % s == 0) && layered == 0;
     let k = w / s;
     'outer: for row in 0..s {
         for col in 0..s {
@@ -228,7 +262,7 @@ pub fn check_case2(c: &RCase, q: &QRCode, other: Option<&QRCode>) -> (Vec<(Strin
         }
         // the same on a builder that has already rendered another symbol of the same pixel size: the PNG and the
         // pixmap of *this* symbol must not carry anything over
-        if let Some(o) = other {
+        if let (Some(o), 0) = (other, layered) {
             let r = subject::guarded(|| {
                 // the used builder reaches the final options through a history: other colours, another margin and
                 // other fit bounds first (a bound that is set, overridden by the other one, and set again), a render
@@ -309,7 +343,7 @@ pub fn replay(case: &Value) -> Result<Vec<(String, String)>, String> {
 
 pub fn run(ctx: &Ctx) -> Collector {
     let col = Collector::new("C13", "exploration");
-    col.set_rule("cases = (a) square shape at original scale: all 40 versions x margins {0,4} x 3 colour pairs, every pixel exact; (b) 6 shapes x versions x margins x fits {width kS, height kS for k in 4,5,8; (w,h) with w != h in both orders; non-integer scale kS+3} x 7 colour pairs {black/white, white/black, red on fully transparent, blue/yellow, slate/orange, azure on fully transparent, black on half-transparent grey}; the square shape is named in one half of its cases and left to the default in the other (quick: versions {1,2,7,40}, margins {0,4}, colour pair rotated per case, plus every version x every shape at 4 pixels per module; thorough: all 40 versions, margins {0,1,4}, full product); oracle: pixmap square with the requested side, centre pixel of every dark module = module colour, of every light module and quiet-zone cell = background (scale >= 4), every pixel of every cell for the square shape at integer scale, and to_bytes() decoded by an independent PNG reader (own inflate, CRC-32, Adler-32, unfilter) equals the de-multiplied pixmap, also on a builder that has rendered another symbol of the same size before; non-trivial = a pixmap was rendered; distinct = distinct pixel buffers");
+    col.set_rule("cases = (a) square shape at original scale: all 40 versions x margins {0,4} x 3 colour pairs, every pixel exact; (b) 6 shapes x versions x margins x fits {width kS, height kS for k in 4,5,8; (w,h) with w != h in both orders; non-integer scale kS+3} x 7 colour pairs {black/white, white/black, red on fully transparent, blue/yellow, slate/orange, azure on fully transparent, black on half-transparent grey}; the square shape is named in one half of its cases and left to the default in the other; two cases in five are layered (the same colour below and above another one; a hollow module: the top layer in the background colour over a green square) and the top layer decides the centre pixel (quick: versions {1,2,7,40}, margins {0,4}, colour pair rotated per case, plus every version x every shape at 4 pixels per module; thorough: all 40 versions, margins {0,1,4}, full product); oracle: pixmap square with the requested side, centre pixel of every dark module = module colour, of every light module and quiet-zone cell = background (scale >= 4), every pixel of every cell for the square shape at integer scale, and to_bytes() decoded by an independent PNG reader (own inflate, CRC-32, Adler-32, unfilter) equals the de-multiplied pixmap, also on a builder that has rendered another symbol of the same size before; non-trivial = a pixmap was rendered; distinct = distinct pixel buffers");
     col.assume("module colours opaque; background alpha 0 or 255 (the expected pixel is the colour itself), and one pair with a half-transparent background, whose light cells are expected to show that colour within +-2 per channel (nothing lies under the background); no other blending rule assumed");
     col.assume("resvg/usvg/tiny-skia/png are part of the subject as linked; fit sizes below 4 pixels per module are checked for size only (square shape at integer scale >= 1: every pixel)");
     let thorough = ctx.tier.thorough();
